@@ -4,7 +4,7 @@ EXTENDS Proxy
 \* One tick is 10 seconds of header time.
 AllForms == {"none", "ma2", "ma5", "ma0", "nostore", "nocache", "private", "private_ma", "exp_past", "exp_fut3",
              "exp_bad", "ma2_exp_past", "public", "NoStoreCaps", "two_lines_nostore", "ma2_extra", "nostore_ma",
-             "MaxAgeCaps"}
+             "MaxAgeCaps", "exp_eq_date"}
 StorableTab == [f \in AllForms |->
     CASE f \in {"none", "ma2", "ma5", "exp_fut3", "ma2_extra", "MaxAgeCaps"} -> "yes"
       [] f \in {"ma2_exp_past", "public"} -> "either"
@@ -15,7 +15,7 @@ LifeTab == [f \in AllForms |->
     CASE f \in {"ma2", "ma2_exp_past", "ma2_extra", "MaxAgeCaps"} -> 2
       [] f \in {"ma5", "private_ma", "two_lines_nostore", "nostore_ma"} -> 5
       [] f = "exp_fut3" -> 3
-      [] f \in {"exp_past", "exp_bad", "ma0"} -> -1
+      [] f \in {"exp_past", "exp_bad", "ma0", "exp_eq_date"} -> -1   \* (exp_eq_date: Expires equals the response's own Date)
       [] OTHER -> 0]
 FlightForms == {"ma2", "nostore", "none", "ma5"}
 RevalForms == {"ma2", "none", "exp_fut3", "ma2_extra", "MaxAgeCaps"}
